@@ -12,8 +12,9 @@ import (
 //
 // One case: a key (0..12 characters from every Unicode plane, ASCII symbols, control
 // characters, quotes, backslashes, escape-like sequences spelled out as ordinary characters,
-// U+FFFD) and up to five near-miss sibling keys (without the backslashes, backslashes doubled,
-// escape-like sequences decoded, other case, prefix, extension, quotes swapped, padded), all in
+// U+FFFD, Unicode space-like / format characters — U+3000, U+00A0, U+0085, U+1680, U+2000..U+200B,
+// U+2028, U+2029, U+202F, U+205F, U+FEFF, U+180E — at the start, inside and at the end) and up to five near-miss sibling keys (without the backslashes, backslashes doubled,
+// escape-like sequences decoded, other case, prefix, extension, quotes swapped, padded with a blank or a space-like character), all in
 // one object with pairwise distinct numbers as values.
 // Spellings of the selector: ['…'] and ["…"] with minimal JSON-style escaping, with every
 // character as \uXXXX (surrogate pairs above the BMP, upper/lower hex), a random mixture with
@@ -51,9 +52,9 @@ func c16GenKey(r *Rng) (string, []string) {
 	n := r.Weighted([]int{3, 14, 12, 10, 9, 8, 7, 6, 6, 5, 5, 5, 10})
 	var b strings.Builder
 	// the classes this key draws from: one class, or a mixture
-	pool := []int{r.Intn(6)}
+	pool := []int{r.Intn(7)}
 	if r.Chance(55) {
-		pool = append(pool, r.Intn(6), r.Intn(6))
+		pool = append(pool, r.Intn(7), r.Intn(7))
 	}
 	count := 0
 	for count < n {
@@ -109,6 +110,16 @@ func c16GenKey(r *Rng) (string, []string) {
 			b.WriteString(e)
 			count += utf8.RuneCountInString(e) - 1
 			classes["escape-like"] = true
+		case 6:
+			// characters that look like blanks (or like nothing): U+3000, U+00A0, U+0085, U+1680, U+2000..U+200B, U+2028,
+			// U+2029, U+202F, U+205F, U+FEFF, U+180E — ordinary name characters in every notation; 45% of the draws
+			// are an alphanumeric character, so that they stand at the start, inside and at the end of names
+			if count > 0 && r.Chance(45) {
+				b.WriteRune(c16Alnum[r.Intn(len(c16Alnum))])
+			} else {
+				b.WriteRune(spaceLikeRune(r))
+				classes["space-like"] = true
+			}
 		}
 		count++
 	}
@@ -170,6 +181,8 @@ func c16Siblings(r *Rng, k string) []string {
 		k + "()",
 		"",
 		"*",
+		k + string(spaceLikeRune(r)),
+		string(spaceLikeRune(r)) + k,
 	}
 	if len(rs) > 0 {
 		cands = append(cands, string(rs[:len(rs)-1]), string(rs[1:]))
